@@ -15,6 +15,7 @@ import (
 	"time"
 
 	"github.com/bufbuild/buf/private/buf/bufformat"
+	"github.com/bufbuild/buf/private/bufpkg/bufanalysis"
 	"github.com/bufbuild/buf/private/bufpkg/bufconfig"
 	"github.com/bufbuild/buf/private/bufpkg/bufimage"
 	"github.com/bufbuild/buf/private/bufpkg/bufimage/bufimageutil"
@@ -237,6 +238,30 @@ func operations() []operation {
 				return nil, err
 			}
 			return annotationBytes(client.Lint(ctx, cfg, img))
+		}},
+		{"lint-junit", func(ctx context.Context, env Env) ([]byte, error) {
+			// the same annotations in the junit format (grouped by file: the groups come in a fixed order too)
+			img, err := buildImage(ctx, env, 1)
+			if err != nil {
+				return nil, err
+			}
+			client, err := bufx.CheckClient(ctx)
+			if err != nil {
+				return nil, err
+			}
+			cfg, err := bufx.LintConfig(bufconfig.FileVersionV2, []string{"STANDARD"}, nil, nil, nil, false)
+			if err != nil {
+				return nil, err
+			}
+			var fas bufanalysis.FileAnnotationSet
+			if cerr := client.Lint(ctx, cfg, img); !errors.As(cerr, &fas) {
+				return nil, fmt.Errorf("lint gave no annotations: %v", cerr)
+			}
+			var buf bytes.Buffer
+			if err := bufanalysis.PrintFileAnnotationSet(&buf, fas, "junit"); err != nil {
+				return nil, err
+			}
+			return buf.Bytes(), nil
 		}},
 		{"breaking", func(ctx context.Context, env Env) ([]byte, error) {
 			img1, err := buildImage(ctx, env, 1)
